@@ -96,6 +96,16 @@ def cases(tier, seed, ctx=None):
         for _ in range(rng.range(0, 5)):
             ops.append(rng.choice([G.PeerFin, G.PeerDrop, G.Turn, G.Ack(3), G.App(rng.choice(late)), G.Feed(rng.bytes(3))]))
         yield ("sock", [rng.choice(pols), ops, env, [19]], "mut-conn")
+    # the application registers its slots again while a whole-body invocation is still waiting for the rest of the body
+    ver0 = ctx["probe"]("version", [[]])[0][0]
+    for _ in range(60 if quick else 600):
+        form = rng.range(0, 3) + 4
+        regs = [[b"up", 0, rng.range(0, 5), 1, form], [b"other", 0, rng.range(0, 5), rng.below(2), rng.range(0, 3) + 4]]
+        body = rng.bytes(rng.range(1, 12))
+        head = b"POST /up HTTP/1.1\r\nContent-Length: %d\r\n\r\n" % len(body)
+        k = rng.range(0, len(body) - 1)
+        ops = [G.Construct, G.Feed(head + body[:k])] + [G.Feed(x) for x in rng.partition(body[k:], 3)] + [G.Turn]
+        yield ("slot", [regs, ops, [ver0, []], [15, b"up", len(body), len(head)]], "reregister-while-waiting")
     # upstream streams
     REQ = b"GET /r HTTP/1.1\r\nHost: h"
     ver, tab = G.oracle(ctx, [b"/r"])
